@@ -11,6 +11,10 @@ def main(argv):
         from .driver import run_replay_file
 
         return run_replay_file(argv[1])
+    if argv[0] == "--validate-translation":
+        from .validate import main as vt
+
+        return vt()
     if argv[0] == "--selftest":
         from .selftest import main as st
 
